@@ -52,6 +52,17 @@ def parse_row(s):
     return [parse_f(t) for t in s.split(',')]
 
 
+def coq_eval_retry(ctx, *a, **k):
+    """coqc is occasionally killed when the machine is overloaded: retry once before giving up"""
+    import time
+    try:
+        return common.coq_eval(*a, **k)
+    except RuntimeError as e:
+        ctx.notes.append(f'coq_eval retried after: {str(e)[:200]}')
+        time.sleep(10)
+        return common.coq_eval(*a, **k)
+
+
 # ------------------------------------------------------------------ generators
 def gen_comb(rng, nmax):
     """non-overlapping comb: list of [f, baud, slot, power_W]"""
@@ -405,7 +416,7 @@ def run(ctx):
             ctx.count('unsorted_solver_cases')
         meta.append((c, rec, sh is not None))
 
-    outs = common.coq_eval('C03', 'Prelude Num NumRun Model.GN Run.C03', terms + st_terms, per_file=ctx.scale(30, 60),
+    outs = coq_eval_retry(ctx, 'C03', 'Prelude Num NumRun Model.GN Run.C03', terms + st_terms, per_file=ctx.scale(30, 60),
                            prelude='Open Scope float_scope.')
     model_rows, st_rows = outs[:len(terms)], outs[len(terms):]
 
